@@ -3,7 +3,7 @@ import math
 from vlib.tok import f64, lst
 ID = 'C07'
 THEOREMS = ['Nix.C07.' + t for t in [
-    'range_index_spec', 'range_deref_safe', 'sampled_index_spec', 'count_index_spec', 'index_unique', 'index_roundtrip',
+    'count_index_beyond', 'getCountIndex_of_lt', 'range_index_spec', 'range_deref_safe', 'sampled_index_spec', 'count_index_spec', 'index_unique', 'index_roundtrip',
     'sampled_roundtrip', 'range_pair_spec', 'count_pair_spec', 'sampled_pair_spec', 'rel_evaluator_sound']]
 RULE = ('structured grid: families of axes (sampled: decimal and binary intervals x offsets; range: random strictly ascending ticks incl. '
         'ulp-adjacent ticks; set / data-frame: label and row counts incl. none) x sample indices x positions {x_i, pred(x_i), succ(x_i), '
@@ -152,6 +152,15 @@ def cases(tier, seed, rng):
         lines.append('pairv %s %s incl' % (lst([f64(0.0), f64(1.0)]), lst([f64(1.0), f64(2.0)])))
         lines += ['posat 0', 'axisv 0 0', 'axisv 1 0']
         out.append(Case(lines, 'gen:range-empty'))
+    # set / data-frame axes asked for positions no index type can hold (2^64 and beyond, +inf) or that are no numbers
+    for kind in ('set', 'df'):
+        for cnt in (0, 1, 5):
+            lines = ['axis_%s %d' % (kind, cnt)]
+            for p in (2.0 ** 64, 2.0 ** 64 - 2048.0, 2.0 ** 63, 1e308, math.inf, -math.inf, math.nan, -1e308, 2.0 ** 70):
+                for m in MATCHES: lines.append('idx %s %s' % (f64(p), m))
+            for s_, e_ in ((0.0, math.inf), (0.0, 2.0 ** 64), (2.0 ** 64, 2.0 ** 65), (-math.inf, 3.0), (math.nan, math.nan), (1.0, 1e308)):
+                for rm in ('incl', 'excl'): lines.append('pair %s %s %s' % (f64(s_), f64(e_), rm))
+            out.append(Case(lines, 'gen:count-extreme'))
     # set / data-frame axes
     for kind in ('set', 'df'):
         for cnt in ([0, 1, 2, 5, 17] if quick else [0, 1, 2, 3, 5, 17, 64, 1000]):
